@@ -2,7 +2,7 @@
 import looplib as L
 from vlib import Failure, finish, hexs
 
-COQ_FILES = L.LOOP_COQ_FILES + L.REFINE_COQ_FILES + ["LoopDrainProofs.v"] + L.CANCEL_COQ_FILES + ["LoopCancelDrainProofs.v"]
+COQ_FILES = L.LOOP_COQ_FILES + L.REFINE_COQ_FILES + ["LoopDrainProofs.v"] + L.CANCEL_COQ_FILES + ["LoopCancelDrainProofs.v", "LoopMute.v", "LoopMuteProofs.v"]
 
 GARBAGE = [b"foo\n", b"\xff\xfe\n", b"ACK [5@0] {} nope\n", b"OK\nOK\n", b"x: y\n", b"binary: 99999\n", b"list_OK\nOK\n", b"ACK [x@0] {} z\n", b"OK\n",
            # one or two bytes that cannot begin anything the server may send: malformed at once, however little has arrived
@@ -118,7 +118,7 @@ def gen(ctx):
     # c08_exec_cancel_*): a fragment session, then the end of the stream or a failing read — no flush before it, so that requests
     # are in flight, held and queued when it happens
     for _ in range(60 if ctx.tier == "quick" else 1200):
-        labels, info, rid = L.gen_fragment_session(rng, rng.choice([3, 8, 20, 50]), tricky=False, cancels=rng.random() < 0.5)
+        labels, info, rid = L.gen_fragment_session(rng, rng.choice([3, 8, 20, 50]), tricky=False, cancels=rng.random() < 0.5, drops=rng.random() < 0.3)
         kind = rng.choice(["e", "r"])
         labels += ["e" if kind == "e" else "r" + str(rng.randrange(8))]
         labels += ["t200", "t200"]
@@ -139,6 +139,7 @@ def drain_membership(ctx, scheds):
         idx.append(i)
     outs = ctx.run_model([" ".join(["loopfrag", s.cspec, s.conf] + s.labels) for s in pre]) if pre else []
     return {"fragment_then_e_or_r": sum(1 for o in outs if o == "in"), "fragment_with_cancellations_then_e_or_r": sum(1 for o in outs if o == "in+x"),
+            "fragment_with_listener_dropped_then_e_or_r": sum(1 for o in outs if o in ("in+Z", "in+x+Z")),
             "schedules_ending_in_e_or_r": len(pre)}
 
 
